@@ -577,3 +577,5 @@ for _f in _package_files():
         CORPUS[_p].append(E(f"sweep: products of every function in {_f} commuted", (_f, "@commute_all", "")))
         CORPUS[_p].append(E(f"sweep: comparisons of every function in {_f} mirrored (a < b -> b > a)", (_f, "@swapcmp_all", "")))
         CORPUS[_p].append(E(f"sweep: if/else of every function in {_f} flipped (if c: A else: B -> if not c: B else: A)", (_f, "@flipif_all", "")))
+        CORPUS[_p].append(E(f"sweep: every returned expression of {_f} through a temporary", (_f, "@tempret_all", "")))
+        CORPUS[_p].append(E(f"sweep: every value stored to self.<attr> in {_f} through a temporary", (_f, "@tempattr_all", "")))
